@@ -444,7 +444,17 @@ def run(tier, seed, only=None):
         tpl = X.Template(scratch)
         pool.run([dry_task(ex, tpl, scratch) for ex in exs])
         for err in pool.errors[:3]:
-            c.obligation_broken("crash harness: a dry run could not be performed", err[-1200:])
+            if "cannot build the pre-state" in err and "xyzpy/" in err:
+                # the operations that lead up to the crash point (sow, grow, ...) failed on their own, with no crash
+                # at all, inside xyzpy: the uninterrupted run itself does not deliver
+                ex0 = next((e for e in exs if not hasattr(e, "dry")), None)
+                c.violation("uninterrupted-run-failed",
+                            "with no crash injected, the operations before the crash point raised: "
+                            + err[err.index("cannot build the pre-state"):][:500],
+                            {"scenario": ex0.scen.describe() if ex0 is not None else None,
+                             "pre_ops": ex0.pre if ex0 is not None else None})
+            else:
+                c.obligation_broken("crash harness: a dry run could not be performed", err[-1200:])
         tasks, owners = [], []
         second = 0 if tier == "quick" else 20
         for ex in exs:
